@@ -188,6 +188,7 @@ class Interp:
         self.calls_made = []          # (callee qualname, line)
         self.contract_calls = []      # (callee qualname, bound args, result)
         self._loop_ord = {}
+        self.class_stack = []         # (class VFunc, self) of the repo methods being executed (for super())
         self.frame_ok = set()         # ids of non-owned objects the contract allows the function to mutate
         self.module_objs = {}
         self.global_state = {}        # (module, name) -> Value  (module-level mutable state)
@@ -235,8 +236,12 @@ class Interp:
         if isinstance(v, (VFunc, VType, VModule)):
             return True
         if isinstance(v, VObj):
-            if v.tag in ("DataFrame", "Series", "ndarray"):
-                self.unsupported(node, f"truth value of {v.tag}")
+            if v.tag in ("DataFrame", "Series", "ndarray", "boolarray"):
+                if self.spec_mode:
+                    self.unsupported(node, f"truth value of {v.tag}")
+                # numpy / pandas: the truth value of an array with more than one element is ambiguous
+                self.ctx.assumed.add("extern:bool(array-like with several elements) raises ValueError")
+                raise PyRaise("ValueError", "The truth value of an array is ambiguous", getattr(node, "lineno", None))
             return True
         self.unsupported(node, f"truthiness of {v!r}")
 
@@ -322,6 +327,8 @@ class Interp:
             return self.module_name(env.module, name, node)
         except KeyError:
             pass
+        if name == "__file__" and env.module is not None:
+            return VStr(env.module.path)
         if name in self.externs.BUILTIN_TYPES:
             return VType(self.externs.BUILTIN_TYPES[name])
         if name in self.externs.BUILTINS:
@@ -1021,6 +1028,8 @@ class Interp:
             r = self.externs.getattr_hook(self, base, attr, node)
             if r is not None:
                 return r
+        if isinstance(base, VObj) and base.tag == "super":
+            return self.super_getattr(base, attr, node)
         if isinstance(base, VObj):
             if attr in base.attrs:
                 return base.attrs[attr]
@@ -1053,6 +1062,29 @@ class Interp:
             if r is not None:
                 return r
         return VFunc("method", attr, self_val=base)
+
+    def super_proxy(self, node):
+        if not self.class_stack:
+            self.unsupported(node, "super() outside a method")
+        cls, selfv = self.class_stack[-1]
+        o = VObj("super")
+        o.of_class, o.self_val = cls, selfv
+        return o
+
+    def super_getattr(self, proxy, attr, node):
+        """attribute lookup through super(): search the bases of the current class (repo classes only)"""
+        cls = proxy.of_class
+        for b in cls.node.bases:
+            try:
+                bv = self.ev(b, Env(cls.data["module"]))
+            except (PyRaise, Unsupported):
+                continue
+            if isinstance(bv, VFunc) and bv.kind == "class":
+                m = self.find_method(bv, attr)
+                if m is not None and m[0] == "method":
+                    return VFunc("method", attr, self_val=proxy.self_val, data=m[1])
+        # abstract base / object: methods that do nothing observable
+        return VFunc("pyfn", f"super.{attr}", data=lambda i2, a, kw, n2: NONE)
 
     def resolve_class(self, name):
         from .frontend import MODULE_FILES
@@ -1331,8 +1363,11 @@ class Interp:
                 return self.call_contract(c, ([] if info["static"] else [sv]) + args, kwargs, node)
             f = VFunc("closure", info["qualname"], node=info["node"], env=Env(info["module"]),
                       self_val=None if info["static"] else sv, data=info)
-            save = (self.current_qualname,)
-            return self.call_closure(f, args, kwargs, node)
+            self.class_stack.append((info["cls"], sv))
+            try:
+                return self.call_closure(f, args, kwargs, node)
+            finally:
+                self.class_stack.pop()
         return self.externs.call_method(self, sv, fv.name, args, kwargs, node)
 
     def is_current(self, qual):
@@ -1359,7 +1394,11 @@ class Interp:
                 self.call_contract(c, [obj] + args, kwargs, node)
             else:
                 f = VFunc("closure", info["qualname"], node=info["node"], env=Env(info["module"]), self_val=obj, data=info)
-                self.call_closure(f, args, kwargs, node)
+                self.class_stack.append((info["cls"], obj))
+                try:
+                    self.call_closure(f, args, kwargs, node)
+                finally:
+                    self.class_stack.pop()
         return obj
 
     # contract-based call (R-call) ------------------------------------------
